@@ -21,7 +21,9 @@ RULE = ("SCC streams in the three caption modes: pop-on groups of 1-3 rows on no
         "32 together with another row in the same group. "
         'Groups sit on the timeline sequentially, exactly 24 h after the first group, or on '
         "the first group's timecode again; rows may contain a mid-row code and begin / end with 1-2 blanks; the final caption "
-        'may be unterminated; the SCCReader object is fresh or has a past. ')
+        'may be unterminated; the SCCReader object is fresh or has a past. '
+        "Lines are written in lexical variants too: 1-3 blanks between code words, blanks for "
+        "the tab after the timecode, blanks / a tab after the last word. ")
 ASSUMPTIONS = [
     "rows are runs of letters/digits with 0-2 blanks at either edge; a row that exceeds 32 only "
     "by its edge blanks may be rejected or returned, but no returned line may exceed 32",
@@ -54,7 +56,7 @@ def stream_strategy(tier):
         # blanks at the edges of a row: [group][row] -> [leading, trailing]
         pads = [[draw(st.sampled_from([[0, 0], [0, 0], [0, 0], [1, 0], [2, 0], [0, 1], [0, 2], [1, 1]]))
                  for _ in g] for g in groups]
-        return {"mode": mode, "groups": groups, "pads": pads, "ru": draw(st.sampled_from(["RU2", "RU3", "RU4"])),
+        return {"mode": mode, "groups": groups, "pads": pads, "spacing": draw(SP.spacing_strategy()), "ru": draw(st.sampled_from(["RU2", "RU3", "RU4"])),
                 "drop": draw(st.booleans()), "double": draw(st.booleans()), "mids": mids,
                 "terminate": draw(st.integers(0, 2)) != 0, "reuse": draw(SP.reuse_strategy()),
                 "tc": [draw(st.sampled_from(["seq", "seq", "seq", "plus24h", "repeat-first"]))
@@ -109,17 +111,17 @@ def build(case, perm=None):
                 if texts[k]:
                     rows_all.append((texts[k], mids[gi][k]))
             w += ctrl("EOC")
-            lines += [R.timecode(t, case["drop"]) + "\t" + " ".join(w), ""]
+            lines += [SP.fmt_line(R.timecode(t, case["drop"]), w, case.get("spacing")), ""]
             t += len(w) + 60
             if term or gi < len(case["groups"]) - 1:
-                lines += [R.timecode(t, case["drop"]) + "\t" + " ".join(ctrl("EDM")), ""]
+                lines += [SP.fmt_line(R.timecode(t, case["drop"]), ctrl("EDM"), case.get("spacing")), ""]
             t += 10
         elif mode == "roll":
             for pos, k in enumerate(order):
                 w = ctrl(case["ru"]) + ctrl("CR") + [R.pac(15, 0)] * d + _row_words(texts[k], mids[gi][k], d)
                 if texts[k]:
                     rows_all.append((texts[k], mids[gi][k]))
-                lines += [R.timecode(t, case["drop"]) + "\t" + " ".join(w), ""]
+                lines += [SP.fmt_line(R.timecode(t, case["drop"]), w, case.get("spacing")), ""]
                 t += len(w) + 30
         else:
             w = ctrl("RDC")
@@ -127,14 +129,14 @@ def build(case, perm=None):
                 w += [R.pac(3 + 4 * pos, 0)] * d + _row_words(texts[k], mids[gi][k], d)
                 if texts[k]:
                     rows_all.append((texts[k], mids[gi][k]))
-            lines += [R.timecode(t, case["drop"]) + "\t" + " ".join(w), ""]
+            lines += [SP.fmt_line(R.timecode(t, case["drop"]), w, case.get("spacing")), ""]
             t += len(w) + 60
         if not gi or tcs[gi] == "seq":
             t_seq = t
     if mode == "roll" and term:
-        lines += [R.timecode(t, case["drop"]) + "\t" + " ".join(ctrl(case["ru"]) + ctrl("CR")), ""]
+        lines += [SP.fmt_line(R.timecode(t, case["drop"]), ctrl(case["ru"]) + ctrl("CR"), case.get("spacing")), ""]
     if mode == "paint" and term:
-        lines += [R.timecode(t, case["drop"]) + "\t" + " ".join(ctrl("RDC")), ""]
+        lines += [SP.fmt_line(R.timecode(t, case["drop"]), ctrl("RDC"), case.get("spacing")), ""]
     return "\n".join(lines), rows_all
 
 
